@@ -899,6 +899,37 @@ def stream_cache(tier, seed):
                 if j % 97 == 0:
                     ops += ["l", "f"]
             emit(cap, ops)
+    # H6: sparse histories (id prefix "ks": the harness does NOT look every key up after every step, only the
+    # operations of the history run): lookups with side effects (a "last hit" memo, move-to-front, lazy repair) are
+    # perturbed by the exhaustive observation of the other histories.  Pattern: fill, look a key up, evict it without
+    # touching its bytes (a wrap that abandons the tail), insert it again with other bytes, look it up again;
+    # plus random histories with many lookups
+    def emit_sparse(cap, ops):
+        nonlocal n
+        lines.append("K ks%d %d %s" % (n, cap, " ".join(ops)))
+        n += 1
+    for cap in (6, 8, 10, 12):
+        for a in range(1, cap):
+            for b in range(1, cap - a + 1):
+                for c3 in (1, 2, cap // 2, cap - 1):
+                    counter[0] = 0
+                    ops = ["i:1:%s" % hx(val(a)), "i:2:%s" % hx(val(b)), "i:3:%s" % hx(val(max(1, cap - a - b))), "g:2", "g:2",
+                           "i:4:%s" % hx(val(c3)), "g:2", "i:2:%s" % hx(val(min(cap, b + 2))), "g:2", "c:2", "g:1", "g:3", "g:4", "l", "f"]
+                    emit_sparse(cap, ops)
+    for _ in range(400 if tier == "quick" else 8000):
+        cap = rng.choice([4, 6, 8, 10, 16])
+        counter[0] = rng.randrange(1000)
+        ops = []
+        for j in range(rng.randrange(10, 60)):
+            k = rng.randrange(0, 7)
+            r = rng.random()
+            if r < 0.5:
+                ops.append("i:%d:%s" % (k, hx(val(rng.choice([1, 2, 3, cap // 2, cap // 2 + 1, cap - 1])))))
+            elif r < 0.9:
+                ops.append("g:%d" % k)
+            else:
+                ops.append(rng.choice(["c:%d" % k, "l", "f"]))
+        emit_sparse(cap, ops)
     # H4: content and key extremes: the same bytes stored under different keys (a cache must not de-duplicate by
     # content), values of zero bytes (what the fresh buffer holds), values equal to what they overwrite, keys 0,
     # 2^63 and 2^64 - 1
